@@ -31,7 +31,7 @@ def gen_case(rng):
 def build(case):
     rng = random.Random(case['site_seed'])
     site = sitegen.generate(rng, host='a.test', n_pages=rng.choice([4, 6, 9]), redirects=False,
-                            extra_hosts=['b.test'] if case['scenario'] in ('links',) else (), frames=True)
+                            extra_hosts=['b.test'] if case['scenario'] in ('links',) else (), frames=True, bases=True)
     html = [p for p in site.pages.values() if p.kind == 'html' and sitegen.split_url(p.url)[1] == 'a.test']
     sc = case['scenario']
     other = sitegen.Site('b.test')
@@ -232,6 +232,10 @@ def run_case(case, part):
             # a start URL is its own root (and parent) at depth 0
             if row['root'] != url or row['level'] != 0 or row['inline_level']:
                 part.violation('row-metadata-wrong/start-url', {'row': row}, replay)
+            continue
+        if url in site.optional:
+            # the URL written in a <base> element (the crawler treats it as a link of the page; the site model does not)
+            part.count('crawl_base_element_urls_recorded')
             continue
         problems = sitegen.row_metadata_problems(url, row, rowmap, all_pages, row['root'] if row['root'] in starts else site.start)
         if problems:
